@@ -113,8 +113,8 @@ PROPS["C07"] = dict(
 
 PROPS["C01"] = dict(
     level="proof",
-    verus=["c01_tokenizer", "c01_get_tokens", "c01_index", "c01_lookup", "c04_partition", "c04_precedence"],
-    labels=["C01.", "C04.new.", "C04.check."] + MASK,
+    verus=["c01_tokenizer", "c01_get_tokens", "c01_index", "c01_lookup", "c04_partition", "c04_precedence", "c01_tok_sound", "c05_optimizer"],
+    labels=["C01.", "C04.new.", "C04.check.", "C05.key.", "C05.fusion."] + MASK,
     kani=[],
     trusted=["per-rule matcher uninterpreted (C02/C03)", "probe sequence of a request (iterator chain) materialised (R5)",
              "seahash (uninterpreted), char::is_alphanumeric (uninterpreted token alphabet)",
@@ -125,7 +125,7 @@ PROPS["C01"] = dict(
     level_text="Verus proves, for all strings, that the tokenizer emits exactly the admissible maximal runs (sound and complete up to the buffer limit) with the skip rules the callers request, "
                "that every token get_tokens files a rule under is of a kind guaranteed to be probed (anchor-derived skip rules from the statement, not from the code), that batch construction and add_filter file a rule, for each of its token groups, under a token of that group or the always-probed bucket 0 and under nothing else, that check/check_all return exactly the "
                "matching tag-active rules of the probed buckets, and the category split and precedence",
-    level_note="the final string lemma (pinned pattern token => whole URL token) is not mechanised; see trusted_base",
+    level_note="the string lemma (a token of a literal pattern text under the anchor-derived skip rules is a whole token of every URL containing it) is mechanised for literal text (unit c01_tok_sound, one UTF-8 axiom: decoding is local); its lifting over `^` separators and regex-matched patterns, and the final composition into one index-completeness theorem, are not",
     design_ref="DESIGN.md section 4, C01",
 )
 
